@@ -135,10 +135,8 @@ class HeapDriver:
                 else:
                     delattr(o, attr)
                 return self._o(how, "accepted")
-            except AttributeError:
+            except Exception:  # noqa: BLE001  - rejected; the property does not say with which exception type
                 return self._o(how, "AttributeError")
-            except Exception as e:  # noqa: BLE001
-                return self._o(how, type(e).__name__)
         if name == "MutateInput" and cls == "deep":
             k = len(ext[0][0]) + 1
             for row in ext[0]:
@@ -163,7 +161,7 @@ class HeapDriver:
                         else o.updated(**{"v": MISSING}).updated(nope=1) if False else self._invalid(cls, o)
                 else:
                     r = self._valid(cls, o, nv)
-            except (TypeError, ValueError, ExceptionGroup):
+            except Exception:  # noqa: BLE001  - refused, whatever the exception type
                 return self._o("updated", "rejected")
             self.objs.append((cls, r, None))
             return self._o("updated", len(self.objs))
